@@ -160,60 +160,93 @@ theorem teleport_switch_at_107 (v : Nat) (hv : v ∈ liveTables.supportedProtoco
 
 /-- (5) C11Wire's end-to-end theorem at a protocol version.  `C11Wire.session_end_to_end` with the
 profile no longer a parameter: for EVERY supported `v` the profile `profileOf v` exists and, with
-no hypothesis on ids or flags left, server bytes in (any well-formed packets, any threshold, zlib,
-cipher pair, chunking and segmentation) are decoded by the client, the loop runs (any caps with
-`capR ≥ 1`), and the reference server reading the client's bytes in any segmentation recovers
-exactly the replies due to the packets before the first disconnect — in the keep-alive width, with
-the acknowledgement kind and under the ids protocol `v` prescribes (theorems (1)–(4)).
-Scope: `hquiet` excludes a play-state "set compression" packet, whose reaction
-(`connection.py:798-800`) the play model does not have; by (6) the hypothesis is automatic for every
-version later than 47. -/
+no hypothesis on ids or flags left, server bytes in (any well-formed packets — play-state "set
+compression" packets included, each switching the threshold of both directions at its position —,
+any initial threshold, zlib, cipher pair, chunking and segmentation) are decoded by the client, the
+loop runs (any caps with `capR ≥ 1`), and the reference server reading the client's bytes in any
+segmentation recovers exactly the replies due to the packets before the first disconnect — in the
+keep-alive width, with the acknowledgement kind and under the ids protocol `v` prescribes (theorems
+(1)–(4)), every reply framed with the threshold in force when it was written (`thrTags`).  By (6) only
+versions up to 47 have set-compression packets at all; for the later ones `thrAt thr pkts n = thr`
+throughout. -/
 theorem session_end_to_end_at (v : Nat) (hv : v ∈ liveTables.supportedProtocols) :
     ∃ P, profileOf v = some P ∧
       ∀ {σ τ : Type} (cpS : CipherPair σ) (s0 : σ) (cpC : CipherPair τ) (t0 : τ) (z : Zlib)
         (thr : Option Int) (pkts : List SrvPkt) (capW capR : Nat), 1 ≤ capR →
-        (∀ p ∈ pkts, p.wf P = true) → (∀ p ∈ pkts, isSetCompression p = false) →
-        (∀ p ∈ pkts, FrameOK z.toZlibOps thr (serverFields P p)) →
-        (∀ q ∈ due P pkts, FrameOK z.toZlibOps thr (replyFields P q)) →
+        (∀ p ∈ pkts, p.wf P = true) →
+        ServerOK z.toZlibOps P thr pkts →
+        (∀ q ∈ due P pkts, ∀ n ≤ pkts.length,
+          FrameOK z.toZlibOps (thrAt thr pkts n) (replyFields P q)) →
         ∀ (sends : List Bytes), sends.flatten = serverBytes z.toZlibOps thr P pkts →
         ∀ (segsIn : Segs), segsIn.flatten = (encSends cpS.enc s0 sends).2.flatten →
-        ∃ inbox r, clientRead P cpS.dec s0 z.toZlibOps thr.isSome segsIn = (inbox, .eof) ∧
+        ∃ inbox r tw, clientRead P cpS.dec s0 z.toZlibOps thr.isSome segsIn = (inbox, .eof) ∧
           runLoop P.newer107 true capW capR inbox = some r ∧
+          runT P.newer107 true capW capR inbox = some tw ∧ tw.map (·.1) = r.wire ∧
           r.closed = hasDiscP pkts ∧
-          ∀ segsOut : Segs,
-            segsOut.flatten = (clientWire z.toZlibOps thr P cpC.enc t0 r.wire).flatten →
-            serverDecodeReplies P cpC.dec t0 z.toZlibOps thr.isSome segsOut =
-              (due P pkts, .eof) := by
+          ∀ (last : Bool) (segsOut : Segs),
+            segsOut.flatten =
+              (clientWireT z.toZlibOps P cpC.enc t0 (thrTags thr pkts tw)).flatten →
+            serverDecodeRepliesM P cpC.dec t0 z.toZlibOps
+              ((thrTags thr pkts tw).map (·.2.isSome)) last segsOut = (due P pkts, .eof) := by
   obtain ⟨P, hP, -, -, -, -, -, c1, c2, -, -⟩ := profile_at_every_supported_version v hv
   refine ⟨P, hP, ?_⟩
-  intro σ τ cpS s0 cpC t0 z thr pkts capW capR hR hwf _ hokS hokC sends hsends segsIn hin
+  intro σ τ cpS s0 cpC t0 z thr pkts capW capR hR hwf hokS hokC sends hsends segsIn hin
   exact C11Wire.session_end_to_end cpS s0 cpC t0 z thr P pkts capW capR hR c1 c2 hwf hokS hokC
     sends hsends segsIn hin
 
 /-- (6) The play-state "set compression" packet exists exactly up to protocol 47.  For every
-supported `v`: the profile knows a packet of that name iff `protocol_earlier_eq(47)`; for every later
-version no well-formed server packet is one (its id is simply unknown: a bare `Packet`), so the
-hypothesis `hquiet` of (5) and (10) holds automatically. -/
+supported `v`: the profile's `setCompressionCb` is the id the clientbound play table has under the
+name "set compression" (`setCompOf`), it differs from the three ids the reactor reacts to otherwise,
+and it exists iff `protocol_earlier_eq(47)`; for every later version no well-formed server packet is
+one (its id is simply unknown: a bare `Packet`), the threshold never changes in the play state, and
+the hypothesis `hquiet` of (10) holds automatically. -/
 theorem play_set_compression_upto_47 (v : Nat) (hv : v ∈ liveTables.supportedProtocols)
     (P : Profile) (hP : profileOf v = some P) :
+    P.setCompressionCb = setCompOf P ∧
+    (∀ id, P.setCompressionCb = some id →
+      id ≠ P.kaCb ∧ id ≠ P.posLookCb ∧ id ≠ P.disconnectCb ∧
+      ∀ t, t < 2 ^ 42 → (SrvPkt.setCompression t).wf P = true) ∧
     (earlierEq liveTables v 47 = .ok true ↔ ∃ e ∈ P.others, e.2 = "set compression") ∧
+    (earlierEq liveTables v 47 = .ok P.setCompressionCb.isSome) ∧
     (earlierEq liveTables v 47 = .ok false →
-      ∀ p : SrvPkt, p.wf P = true → isSetCompression p = false) := by
-  obtain ⟨P', hP', -, -, -, h47, -⟩ := profile_at_every_supported_version v hv
+      (∀ p : SrvPkt, p.wf P = true → isSetCompression p = false) ∧
+      ∀ (pkts : List SrvPkt) (thr : Option Int), (∀ p ∈ pkts, p.wf P = true) →
+        ∀ n, thrAt thr pkts n = thr) := by
+  obtain ⟨P', hP', -, -, -, h47, -, -, -, hoth, -⟩ := profile_at_every_supported_version v hv
   have : P' = P := Option.some.inj (hP'.symm.trans hP)
   subst this
-  constructor
-  · rw [h47]
-    unfold setCompOf
-    simp only [Except.ok.injEq, Option.isSome_map, List.find?_isSome, beq_iff_eq]
-  · intro h p hwf
+  obtain ⟨r, -, -, -, hrow, -⟩ := profile_facts hv hP
+  have hsc := profileOfRow_setComp hrow
+  have hquiet : earlierEq liveTables v 47 = .ok false →
+      ∀ p : SrvPkt, p.wf P' = true → isSetCompression p = false := by
+    intro h p hwf
     rw [h47] at h
     have hs : (setCompOf P').isSome = false := Except.ok.inj h
     have : setCompOf P' = none := by
       cases hc : setCompOf P' with
       | none => rfl
       | some _ => rw [hc] at hs; cases hs
-    exact wf_not_setCompression P' this p hwf
+    exact wf_not_setCompression P' (hsc.trans this) p hwf
+  refine ⟨hsc, ?_, ?_, by rw [hsc]; exact h47, fun h => ⟨hquiet h, ?_⟩⟩
+  · intro id hid
+    rw [hsc] at hid
+    have hm : (id, "set compression") ∈ P'.others := by
+      unfold setCompOf setCompIn at hid
+      simp only [Option.map_eq_some_iff] at hid
+      obtain ⟨e, he, rfl⟩ := hid
+      have h1 := List.find?_some he
+      have h2 := List.mem_of_find?_eq_some he
+      simp only [beq_iff_eq] at h1
+      rw [← h1]; exact h2
+    obtain ⟨a, b, c⟩ := hoth _ hm
+    refine ⟨a, b, c, fun t ht => ?_⟩
+    rw [← hsc] at hid
+    simp [SrvPkt.wf, hid, a, b, c, ht]
+  · rw [h47]
+    unfold setCompOf setCompIn
+    simp only [Except.ok.injEq, Option.isSome_map, List.find?_isSome, beq_iff_eq]
+  · intro pkts thr hwf
+    exact thrAt_quiet thr pkts fun p hp => hquiet h p (hwf p hp)
 
 /-- (7) Every supported version determines a login profile, with its two renumberings.  For every
 supported `v` the tables determine one login profile `L`, and
@@ -337,7 +370,10 @@ session whose login-start id, login ids and play profile are the ones protocol `
 (`AtVersion S v`) — the hypotheses `hids` (login ids differ) and `hSb` (serverbound play ids differ)
 are discharged for every supported `v`; everything else (the guards `FirstOK`, `ReachesPlay`, the
 key, the VarInt guards, well-formed packets, `capR ≥ 1`, the peer) is as there.  Such a session
-exists for every supported version (`session_exists_at`).  Scope: `hquiet` as in (5). -/
+exists for every supported version (`session_exists_at`).  Scope: `hquiet` excludes a play-state
+"set compression" packet: `Model/SessionWire.lean` frames every play reply with the ONE threshold
+login left in force (see the scope note of `Props/Session.lean`; the per-reply thresholds are in (5)
+and `C11Wire`); by (6) the hypothesis is automatic for every version later than 47. -/
 theorem server_recovers_session_at (v : Nat) (hv : v ∈ liveTables.supportedProtocols)
     (S : Session) (hS : AtVersion S v) (z : Zlib) (EK : Bytes → Bytes → Bytes)
     (priv : Bytes) (segs : Segs)
@@ -535,7 +571,9 @@ example : (profileOf 757).map (fun P => { P with others := [] }) = some { p757 w
     (profileOf 757).map (fun P => (P.others.length, P.others.lookup 0x0F)) =
       some (24, some "chat message") ∧
     (profileOf 47).map setCompOf = some (some 0x46) ∧
-    (profileOf 107).map setCompOf = some none := by decide +kernel
+    (profileOf 47).map (·.setCompressionCb) = some (some 0x46) ∧
+    (profileOf 107).map setCompOf = some none ∧
+    (profileOf 107).map (·.setCompressionCb) = some none := by decide +kernel
 
 /-- Either side of each switch: 338/339 (keep-alive width), 47/107 (teleport id), 754/755
 (dismount flag). -/
@@ -590,10 +628,15 @@ example :
   subst this
   exact h
 
-/-- (5) instantiated at protocol 47 (VarInt keep-alive, position echo): the hypotheses are
-satisfiable by the demo stream of C11Wire, which contains no play-state "set compression". -/
+/-- (5) instantiated at protocol 47 (VarInt keep-alive, position echo, set compression under 0x46):
+the hypotheses are satisfiable by the demo streams of C11Wire — the one with two play-state "set
+compression" packets included — under the LIVE profile of 47. -/
 example : (profileOf 47).map (fun P =>
-      decide (∀ p ∈ demo47, p.wf P = true) && demo47.all (fun p => !isSetCompression p)) =
+      decide (∀ p ∈ demo47, p.wf P = true) && decide (∀ p ∈ demo47sc, p.wf P = true) &&
+        decide (ServerOK Zlib.ident.toZlibOps P none demo47sc) &&
+        decide (∀ q ∈ due P demo47sc, ∀ n ≤ demo47sc.length,
+          FrameOK Zlib.ident.toZlibOps (thrAt none demo47sc n) (replyFields P q)) &&
+        demo47.all (fun p => !isSetCompression p) && demo47sc.any isSetCompression) =
     some true := by decide +kernel
 
 end PyCraft.VersionProfiles
